@@ -168,6 +168,13 @@ def configs(tier):
         out.append(dict(mode="ack", size=size, seg=seg, closure=closure, naks=2))
     # a put request carrying every kind of Metadata option (filestore request, messages to user): the re-sent Metadata must equal the original
     out.append(dict(mode="ack", size=3, seg=2, closure=False, naks=3, msgs="all", fsreq=True))
+    if tier == "thorough":
+        # three NAKs per run; PDU CRC flag; wide ids; derived segment length (max_packet_len smaller than the configured segment length allows)
+        out.append(dict(mode="ack", size=5, seg=2, closure=False, naks=3))
+        out.append(dict(mode="ack", size=4, seg=2, closure=True, naks=3, crc_flag=True))
+        out.append(dict(mode="ack", size=7, seg=3, closure=False, naks=2, crc_flag=True, idw_s=2, idw_d=4, seqw=4, mpl=64))
+        out.append(dict(mode="ack", size=13, seg=None, closure=False, naks=2, mpl=4 + 2 * 2 + 2 + 4 + 6))  # header 10 + offset 4 + 6 data bytes = the EOF PDU length
+        out.append(dict(mode="ack", size=9, seg=4, closure=True, naks=2, cks="mod"))
     return out
 
 
